@@ -1,6 +1,7 @@
 """C05 -- duality maps invert each other and define the regressive product."""
 from __future__ import annotations
 import os
+from fractions import Fraction
 
 from hypothesis import strategies as st
 
@@ -44,7 +45,7 @@ def _cases(draw, dmax):
     cap = None if d <= 4 else ((12 if kind in ("rp", "polarity") else 24) if d <= 6 else 6)
     a = draw(S.operand(d, max_len=cap))
     b = draw(S.operand(d, max_len=cap)) if kind == "rp" else None
-    return {"cfg": cfg, "kind": kind, "a": a, "b": b, "mode": draw(st.sampled_from(["generic", "frac", "typed"])),
+    return {"cfg": cfg, "kind": kind, "a": a, "b": b, "mode": draw(st.sampled_from(["generic", "frac", "typed", "symhidden"])),
             "undual": draw(st.booleans())}
 
 
@@ -52,7 +53,47 @@ def cases(tier):
     return _cases(6)
 
 
+T_VALUE = Fraction(3, 7)
+
+
+def _hidden(opnd, prefix):
+    """sympy coefficients: every third one is a 'hidden zero' (t*(t+1) - (t**2+t): truthy as an expression, identically 0), the
+    others are t+n or plain numbers.  The element they denote is obtained by substituting t = 3/7."""
+    import sympy
+    t = sympy.Symbol("t")
+    out = []
+    off = 0 if prefix == "a" else 1
+    for i, v in enumerate(opnd["vals"]):
+        n = frac(v)
+        c = sympy.Rational(n.numerator, n.denominator)
+        if (i + off) % 3 == 0:
+            out.append((c + 1) * (t * (t + 1) - (t ** 2 + t)))
+        elif (i + off) % 3 == 1:
+            out.append(t + c)
+        else:
+            out.append(c * t if c != 0 else sympy.Integer(2))
+    return out
+
+
+def _concrete(dct):
+    """Substitute t = 3/7 into sympy coefficients (exact)."""
+    out = {}
+    for k, v in dct.items():
+        if hasattr(v, "free_symbols"):
+            import sympy
+            w = sympy.nsimplify(v.subs({s_: sympy.Rational(T_VALUE.numerator, T_VALUE.denominator) for s_ in v.free_symbols}))
+            w = sympy.simplify(w)
+            if w.is_Rational:
+                v = Fraction(int(w.p), int(w.q))
+            else:
+                v = complex(w) if not w.is_real else float(w)
+        out[k] = v
+    return out
+
+
 def _values(opnd, mode, prefix):
+    if mode == "symhidden":
+        return _hidden(opnd, prefix)
     if mode == "generic":
         return [Q.var(f"{prefix}{k}") for k in opnd["keys"]]
     if mode == "typed" and opnd.get("tvals"):
@@ -71,6 +112,7 @@ def _call(fn, clause, op):
 
 
 def _expect(got, exp, clause, op, what):
+    got, exp = _concrete(got), _concrete(exp)
     ok, why = kd.elem_equal(got, exp)
     if not ok:
         raise Violation(clause, op, f"{what}: {why}", observed=kd.show(got), expected=kd.show(exp))
@@ -83,10 +125,12 @@ def evaluate(case):
     alg = kd.build_algebra(cfg)
     d = ref.d
     r = ref.sig.count(0)
+    if case["mode"] == "symhidden" and (d > 4 or len(case["a"]["keys"]) > 8 or (case["b"] and len(case["b"]["keys"]) > 8)):
+        case = dict(case, mode="frac")      # cost cap of the sympy path
     ka = case["a"]["keys"]
     va = _values(case["a"], case["mode"], "a")
     x = kd.mk(alg, ka, va)
-    da = dict(zip(ka, va))
+    da = _concrete(dict(zip(ka, va)))
     counters = {}
     nontrivial = d >= 2 and len({pc(k) for k in ka}) >= 2
     if kind == "hodge":
@@ -138,7 +182,7 @@ def evaluate(case):
         kb = case["b"]["keys"]
         vb = _values(case["b"], case["mode"], "b")
         y = kd.mk(alg, kb, vb)
-        db = dict(zip(kb, vb))
+        db = _concrete(dict(zip(kb, vb)))
         got = kd.to_dict(_call(lambda: x & y, "rp-definition", "rp"), op="rp")
         via = kd.to_dict(_call(lambda: (x.hodge() ^ y.hodge()).unhodge(), "rp-definition", "hodge"), op="unhodge")
         _expect(got, via, "rp-definition", "rp", "a & b vs unhodge(hodge(a) ^ hodge(b))")
